@@ -26,6 +26,7 @@ import checks
 from symex import SOLVER_STATS
 import workerloop  # noqa: E402
 import blockloop  # noqa: E402
+import discloop  # noqa: E402
 import spawnflow  # noqa: E402
 import runtimeloop  # noqa: E402
 import steploop  # noqa: E402
@@ -151,6 +152,43 @@ def depth_obligations(pid, mir_text, info, add, violations, inconclusive):
                 inconclusive.append(o["obligation"] + ": " + o["result"])
 
 
+DISC_PIDS = ("C01", "C02", "C03", "C11")
+
+
+def disc_obligations(pid, d, mir_text, t_mir, info, add, violations, inconclusive):
+    """C01/C02/C03/C11: what one job of check_block does with properties, eventually-bits, the visited set and the boundary (discloop.py)."""
+    cbs = blockloop.find_check_blocks(mir_text)
+    lib_rs = open(os.path.join(d, "sr", "src", "lib.rs")).read()
+    info["functions_encoded"] = []
+    info["mir_dump_s"] = round(t_mir, 1)
+    info["check_block"] = {}
+    q = 0
+    seen_kinds = set()
+    for name in ("bfs", "dfs"):
+        if name not in cbs:
+            raise Unsupported(f"{name}.rs check_block not found in the MIR")
+        res, binfo = discloop.obligations(name, cbs[name], lib_rs, helpers=blockloop.find_helpers(mir_text, name))
+        binfo["mir_sha256"] = hashlib.sha256(cbs[name].encode()).hexdigest()[:12]
+        mine = [o for o in res if pid in o["tag"].split(",")]
+        binfo["obligations_of_this_property"] = len(mine)
+        binfo["obligations_all_four_properties"] = len(res)
+        info["check_block"][name] = binfo
+        q += binfo["z3_feasibility_queries"]
+        info["functions_encoded"].append(f"checker::{name}::check_block (MIR sha256 {binfo['mir_sha256']}, {binfo['blocks']} basic blocks, {binfo['round_paths']} paths per job, inner loops {binfo['inner_loops_havocked']} abstracted by havoc)")
+        if not mine:
+            raise Unsupported(f"{name} check_block: no obligation of {pid} could be stated")
+        for o in mine:
+            add(o["obligation"], o["result"])
+            kind = name + ":" + re.sub(r" \(.*\)$", "", o["obligation"].split(": ", 2)[-1])
+            if o["result"] == "sat":
+                if kind not in seen_kinds:
+                    seen_kinds.add(kind)
+                    violations.append({"property": pid, "obligation": o["obligation"], "static": True, "witness": {"checker": name}})
+            elif o["result"] != "unsat":
+                inconclusive.append(o["obligation"] + ": " + o["result"])
+    info["z3_feasibility_queries"] = q
+
+
 def run_c17_part(d, mir_text, t_mir, tier, seed, known, t0):
     """C17, runtime-loop clause (the Kani harnesses of C17 are run by lib/runner.py, which merges this
     part into evidence/C17.json): writes $VERIF_PART_OUT and prints VIOLATION / INCONCLUSIVE lines."""
@@ -241,115 +279,149 @@ def run(pid, tier, seed, replay_path=None):
         mir_text, t_mir = dump_mir(d)
         if pid == "C17":
             return run_c17_part(d, mir_text, t_mir, tier, seed, known, t0)
-        bm = BrokerModel(mir_text)
-        info["functions_encoded"] = [f"job_market::JobBroker::{k} (MIR sha256 {hashlib.sha256(v.encode()).hexdigest()[:12]}, {len(bm.bodies[k].blocks)} basic blocks)" for k, v in sorted(bm.mir_by_name.items())]
-        info["mir_dump_s"] = round(t_mir, 1)
-        wc = checks.worker_calls(mir_text)
-        info["broker_calls_by_checker_code"] = wc
-        expected = {"new", "push", "clone", "pop", "split_and_push", "is_closed"}
-        if set(wc) - expected:
-            raise Unsupported(f"checker code calls JobBroker methods the client automaton does not model: {sorted(set(wc) - expected)}")
-        if not {"pop", "split_and_push", "push", "new"} <= set(wc):
-            raise Unsupported(f"could not find the worker closures' broker calls in the MIR (found {sorted(wc)})")
-
         def add(name, result, **kw):
             obligations.append({"obligation": name, "result": result, **kw})
 
-        # translator validation against the real JobBroker (real parking_lot) on concrete cases
-        cases, err = tv.run_native(os.path.join(d, "pristine"), os.path.join(CACHE_ROOT, "target-mir-native"))
-        if cases is None:
-            raise Unsupported("translator validation could not run the real code: " + err[-600:])
-        n_cases, mism = tv.validate(bm, cases)
-        info["translator_validation"] = {"cases_compared_with_real_code": n_cases, "mismatches": mism[:10]}
-        log(f"[{pid}] translator validation: {n_cases} concrete cases compared with the real JobBroker, {len(mism)} mismatches")
-        if mism:
-            raise Unsupported(f"translator validation failed ({len(mism)} mismatches), e.g. {mism[0]}")
+        if pid in DISC_PIDS:
+            disc_obligations(pid, d, mir_text, t_mir, info, add, violations, inconclusive)
+        else:
+            bm = BrokerModel(mir_text)
+            info["functions_encoded"] = [f"job_market::JobBroker::{k} (MIR sha256 {hashlib.sha256(v.encode()).hexdigest()[:12]}, {len(bm.bodies[k].blocks)} basic blocks)" for k, v in sorted(bm.mir_by_name.items())]
+            info["mir_dump_s"] = round(t_mir, 1)
+            wc = checks.worker_calls(mir_text)
+            info["broker_calls_by_checker_code"] = wc
+            expected = {"new", "push", "clone", "pop", "split_and_push", "is_closed"}
+            if set(wc) - expected:
+                raise Unsupported(f"checker code calls JobBroker methods the client automaton does not model: {sorted(set(wc) - expected)}")
+            if not {"pop", "split_and_push", "push", "new"} <= set(wc):
+                raise Unsupported(f"could not find the worker closures' broker calls in the MIR (found {sorted(wc)})")
 
-        if pid == "C05":
-            # (threads, schedule length, spurious wake-ups).  Measured: T=2 K=14 444 s, T=3 K=10 687 s; with spurious
-            # wake-ups T=2 K=14 gave `unknown` after 2314 s, so those variants run at the quick bounds.
-            cfgs = [(2, 10, False), (3, 8, False)] if tier == "quick" else [(2, 14, False), (2, 10, True), (3, 10, False), (3, 8, True)]
-            # the worker closures first: the BMC's client automaton is only meaningful if they conform
-            worker_obligations(pid, mir_text, info, add, violations, inconclusive)
-            wcl = workerloop.find_worker_closures(mir_text)
-            try:
-                forms = {k: workerloop.share_form(k, wcl[k]) for k in ("bfs", "dfs") if k in wcl}
-                if len(forms) != 2 or len(set(forms.values())) != 1:
-                    raise Unsupported(f"worker closures of bfs.rs and dfs.rs not found or sharing work differently: {forms}")
-            except Unsupported:
-                if not violations:
-                    raise
-                forms = None
-                cfgs = []
-                info.setdefault("notes", []).append("BMC skipped: the worker closures violate their obligations and share work under a rule the client automaton does not know")
-            share = forms["bfs"] if forms else "guarded"
-            info["client_automaton_share_rule"] = {"derived_from_worker_MIR": forms}
-            for T, K, spurious in cfgs:
-                for _once in (0,):
-                    proto = Protocol(bm, T, spurious=spurious, share=share)
-                    tag = f"T={T} K={K}" + (" +spurious wake-ups" if spurious else "")
-                    r = checks.bmc(proto, K, 1500000)
-                    log(f"[C05] BMC {tag}: {r['verdict']} ({r['time']:.0f}s)")
-                    if r["verdict"] == "holds":
-                        add(f"BMC {tag}: no deadlock/lost wake-up, no lost or duplicated work, no batch after close, every schedule", "unsat", queries=r["queries"], solver_s=round(r["time"], 1), reachable_witnesses=r["reachable"])
-                        for wname, wk in r["reachable"].items():
-                            if wk is False and not (wname == "split" and K < 4):
-                                inconclusive.append(f"vacuity: situation `{wname}` not reachable within K={K} for T={T}")
-                    elif r["verdict"] == "violation":
-                        # a counterexample a turnstile can replay: woken waiters resume first
-                        r2 = checks.bmc(proto, K, 1500000, eager=True) if not spurious else r
-                        info["replayable_counterexample"] = r2["verdict"] == "violation"
-                        if r2["verdict"] == "violation":
-                            r = r2
-                        cex = {k: r[k] for k in ("obligation", "step", "trace", "states", "P0", "T")}
-                        cex["property"] = "C05"
-                        add(f"BMC {tag}: {r['obligation']}", "sat", step=r["step"])
-                        violations.append(cex)
-                        samples.append({"counterexample": cex})
-                        break
-                    else:
-                        inconclusive.append(f"BMC {tag}: solver returned unknown at step {r.get('step')}")
-                    ri = checks.inductive(proto, 600000)
-                    log(f"[C05] inductive invariant {tag}: {ri['verdict']}")
-                    if ri["verdict"] == "holds":
-                        add(f"inductive invariant T={T}{' +spurious' if spurious else ''}: open => open_count = #active workers; closed => no batches; last-worker rule never closes while work exists (any schedule length)", "unsat", solver_s=round(ri["time"], 2))
-                    elif ri["verdict"] == "violation":
-                        add(f"inductive invariant T={T}", "sat", counterexample=ri.get("counterexample"))
-                        inconclusive.append(f"the protocol invariant is not inductive for T={T} (pre-state may be unreachable): nothing is claimed beyond the BMC bound; counterexample to induction: {json.dumps(ri.get('counterexample'))[:600]}")
-                    else:
-                        inconclusive.append(f"inductive check T={T}: unknown")
-                    if not spurious and not violations:
-                        J = {("quick", 2): 5, ("quick", 3): 4, ("thorough", 2): 6, ("thorough", 3): 5}[(tier, T)]
-                        rd, stt = checks.deep_search(proto, J, K, 1500000)
-                        log(f"[C05] two-phase search T={T} J={J}: {'violation' if rd else 'none'} ({stt['time']:.0f}s, {stt['candidates']} candidates)")
-                        if rd is None and stt["candidates"] == 0:
-                            add(f"T={T}: from EVERY state satisfying the inductive invariant, no deadlock and no lost/duplicated work now or within {J} further steps (with the inductive step this covers schedules of any length)", "unsat", solver_s=round(stt["time"], 1), queries=stt["phase1_queries"])
-                        elif rd is None:
-                            info.setdefault("notes", []).append(f"two-phase search T={T}: {stt['candidates']} invariant-state candidates, none reachable from the initial state within {K} steps (discarded)")
-                        else:
-                            cex = {k: rd[k] for k in ("obligation", "step", "trace", "states", "P0", "T", "found_by")}
+            # translator validation against the real JobBroker (real parking_lot) on concrete cases
+            cases, err = tv.run_native(os.path.join(d, "pristine"), os.path.join(CACHE_ROOT, "target-mir-native"))
+            if cases is None:
+                raise Unsupported("translator validation could not run the real code: " + err[-600:])
+            n_cases, mism = tv.validate(bm, cases)
+            info["translator_validation"] = {"cases_compared_with_real_code": n_cases, "mismatches": mism[:10]}
+            log(f"[{pid}] translator validation: {n_cases} concrete cases compared with the real JobBroker, {len(mism)} mismatches")
+            if mism:
+                raise Unsupported(f"translator validation failed ({len(mism)} mismatches), e.g. {mism[0]}")
+
+            if pid == "C05":
+                # (threads, schedule length, spurious wake-ups).  Measured: T=2 K=14 444 s, T=3 K=10 687 s; with spurious
+                # wake-ups T=2 K=14 gave `unknown` after 2314 s, so those variants run at the quick bounds.
+                cfgs = [(2, 10, False), (3, 8, False)] if tier == "quick" else [(2, 14, False), (2, 10, True), (3, 10, False), (3, 8, True)]
+                # the worker closures first: the BMC's client automaton is only meaningful if they conform
+                worker_obligations(pid, mir_text, info, add, violations, inconclusive)
+                wcl = workerloop.find_worker_closures(mir_text)
+                try:
+                    forms = {k: workerloop.share_form(k, wcl[k]) for k in ("bfs", "dfs") if k in wcl}
+                    if len(forms) != 2 or len(set(forms.values())) != 1:
+                        raise Unsupported(f"worker closures of bfs.rs and dfs.rs not found or sharing work differently: {forms}")
+                except Unsupported:
+                    if not violations:
+                        raise
+                    forms = None
+                    cfgs = []
+                    info.setdefault("notes", []).append("BMC skipped: the worker closures violate their obligations and share work under a rule the client automaton does not know")
+                share = forms["bfs"] if forms else "guarded"
+                info["client_automaton_share_rule"] = {"derived_from_worker_MIR": forms}
+                for T, K, spurious in cfgs:
+                    for _once in (0,):
+                        proto = Protocol(bm, T, spurious=spurious, share=share)
+                        tag = f"T={T} K={K}" + (" +spurious wake-ups" if spurious else "")
+                        r = checks.bmc(proto, K, 1500000)
+                        log(f"[C05] BMC {tag}: {r['verdict']} ({r['time']:.0f}s)")
+                        if r["verdict"] == "holds":
+                            add(f"BMC {tag}: no deadlock/lost wake-up, no lost or duplicated work, no batch after close, every schedule", "unsat", queries=r["queries"], solver_s=round(r["time"], 1), reachable_witnesses=r["reachable"])
+                            for wname, wk in r["reachable"].items():
+                                if wk is False and not (wname == "split" and K < 4):
+                                    inconclusive.append(f"vacuity: situation `{wname}` not reachable within K={K} for T={T}")
+                        elif r["verdict"] == "violation":
+                            # a counterexample a turnstile can replay: woken waiters resume first
+                            r2 = checks.bmc(proto, K, 1500000, eager=True) if not spurious else r
+                            info["replayable_counterexample"] = r2["verdict"] == "violation"
+                            if r2["verdict"] == "violation":
+                                r = r2
+                            cex = {k: r[k] for k in ("obligation", "step", "trace", "states", "P0", "T")}
                             cex["property"] = "C05"
-                            add(f"two-phase search T={T}: {rd['obligation']}", "sat", step=rd["step"], found_by=rd["found_by"])
+                            add(f"BMC {tag}: {r['obligation']}", "sat", step=r["step"])
                             violations.append(cex)
                             samples.append({"counterexample": cex})
                             break
-                if violations:
-                    break
-            for o in checks.static_stop_propagation(bm):
-                add("stop propagation, " + o["obligation"], o["result"], **({"witness": o["witness"]} if "witness" in o else {}))
-                if o["result"] == "sat":
-                    violations.append({"property": "C05", "obligation": o["obligation"], "static": True, "witness": o.get("witness")})
-                elif o["result"] != "unsat":
-                    inconclusive.append(o["obligation"] + ": " + o["result"])
-        elif pid == "C12":
-            worker_obligations(pid, mir_text, info, add, violations, inconclusive, only_observation=True)
-            depth_obligations(pid, mir_text, info, add, violations, inconclusive)
-            checker_rs = open(os.path.join(d, "sr", "src", "checker.rs")).read()
-            info["spawn"] = {}
-            for name in ("bfs", "dfs"):
-                res, sinfo = spawnflow.obligations(name, mir_text, checker_rs)
-                info["spawn"][name] = sinfo
-                info["functions_encoded"].append(f"checker::{name} spawn() ({sinfo['blocks']} basic blocks, loops {sinfo['loops_havocked']} havocked, {sinfo['paths']} paths)")
+                        else:
+                            inconclusive.append(f"BMC {tag}: solver returned unknown at step {r.get('step')}")
+                        ri = checks.inductive(proto, 600000)
+                        log(f"[C05] inductive invariant {tag}: {ri['verdict']}")
+                        if ri["verdict"] == "holds":
+                            add(f"inductive invariant T={T}{' +spurious' if spurious else ''}: open => open_count = #active workers; closed => no batches; last-worker rule never closes while work exists (any schedule length)", "unsat", solver_s=round(ri["time"], 2))
+                        elif ri["verdict"] == "violation":
+                            add(f"inductive invariant T={T}", "sat", counterexample=ri.get("counterexample"))
+                            inconclusive.append(f"the protocol invariant is not inductive for T={T} (pre-state may be unreachable): nothing is claimed beyond the BMC bound; counterexample to induction: {json.dumps(ri.get('counterexample'))[:600]}")
+                        else:
+                            inconclusive.append(f"inductive check T={T}: unknown")
+                        if not spurious and not violations:
+                            J = {("quick", 2): 5, ("quick", 3): 4, ("thorough", 2): 6, ("thorough", 3): 5}[(tier, T)]
+                            rd, stt = checks.deep_search(proto, J, K, 1500000)
+                            log(f"[C05] two-phase search T={T} J={J}: {'violation' if rd else 'none'} ({stt['time']:.0f}s, {stt['candidates']} candidates)")
+                            if rd is None and stt["candidates"] == 0:
+                                add(f"T={T}: from EVERY state satisfying the inductive invariant, no deadlock and no lost/duplicated work now or within {J} further steps (with the inductive step this covers schedules of any length)", "unsat", solver_s=round(stt["time"], 1), queries=stt["phase1_queries"])
+                            elif rd is None:
+                                info.setdefault("notes", []).append(f"two-phase search T={T}: {stt['candidates']} invariant-state candidates, none reachable from the initial state within {K} steps (discarded)")
+                            else:
+                                cex = {k: rd[k] for k in ("obligation", "step", "trace", "states", "P0", "T", "found_by")}
+                                cex["property"] = "C05"
+                                add(f"two-phase search T={T}: {rd['obligation']}", "sat", step=rd["step"], found_by=rd["found_by"])
+                                violations.append(cex)
+                                samples.append({"counterexample": cex})
+                                break
+                    if violations:
+                        break
+                for o in checks.static_stop_propagation(bm):
+                    add("stop propagation, " + o["obligation"], o["result"], **({"witness": o["witness"]} if "witness" in o else {}))
+                    if o["result"] == "sat":
+                        violations.append({"property": "C05", "obligation": o["obligation"], "static": True, "witness": o.get("witness")})
+                    elif o["result"] != "unsat":
+                        inconclusive.append(o["obligation"] + ": " + o["result"])
+            elif pid == "C12":
+                worker_obligations(pid, mir_text, info, add, violations, inconclusive, only_observation=True)
+                depth_obligations(pid, mir_text, info, add, violations, inconclusive)
+                checker_rs = open(os.path.join(d, "sr", "src", "checker.rs")).read()
+                info["spawn"] = {}
+                for name in ("bfs", "dfs"):
+                    res, sinfo = spawnflow.obligations(name, mir_text, checker_rs)
+                    info["spawn"][name] = sinfo
+                    info["functions_encoded"].append(f"checker::{name} spawn() ({sinfo['blocks']} basic blocks, loops {sinfo['loops_havocked']} havocked, {sinfo['paths']} paths)")
+                    seen_kinds = set()
+                    for o in res:
+                        add(o["obligation"], o["result"], **({"witness": o["witness"]} if o.get("witness") else {}))
+                        kind = o["obligation"].split(": ", 2)[-1]
+                        if o["result"] == "sat":
+                            if kind not in seen_kinds:
+                                seen_kinds.add(kind)
+                                violations.append({"property": pid, "obligation": o["obligation"], "static": True, "witness": o.get("witness")})
+                        elif o["result"] != "unsat":
+                            inconclusive.append(o["obligation"] + ": " + o["result"])
+                outs, n_paths = checks.static_timeout(bm)
+                info["timeout_thread_paths"] = n_paths
+                for o in outs:
+                    add("timeout, " + o["obligation"], o["result"], **({"witness": o["witness"]} if "witness" in o else {}))
+                    if o["result"] == "sat":
+                        violations.append({"property": "C12", "obligation": o["obligation"], "static": True, "witness": o.get("witness")})
+                    elif o["result"] != "unsat":
+                        inconclusive.append(o["obligation"] + ": " + o["result"])
+                for o in checks.static_stop_propagation(bm):
+                    add("once closed every worker's next broker call observes it, " + o["obligation"], o["result"])
+                    if o["result"] == "sat":
+                        violations.append({"property": "C12", "obligation": o["obligation"], "static": True, "witness": o.get("witness")})
+                    elif o["result"] != "unsat":
+                        inconclusive.append(o["obligation"] + ": " + o["result"])
+                if not bm.spawns_timeout_thread():
+                    inconclusive.append("JobBroker::new does not spawn the timeout closure any more")
+            elif pid == "C06":
+                res, sinfo = steploop.obligations(mir_text, open(os.path.join(d, "sr", "src", "actor", "model_state.rs")).read())
+                info["actor_step"] = sinfo
+                for k, v in sinfo.items():
+                    info["functions_encoded"].append(f"actor::model::ActorModel::{k} ({v['blocks']} basic blocks, {v['paths']} paths; MIR sha256 {hashlib.sha256((steploop.find(mir_text, k) or '').encode()).hexdigest()[:12]})")
                 seen_kinds = set()
                 for o in res:
                     add(o["obligation"], o["result"], **({"witness": o["witness"]} if o.get("witness") else {}))
@@ -360,63 +432,32 @@ def run(pid, tier, seed, replay_path=None):
                             violations.append({"property": pid, "obligation": o["obligation"], "static": True, "witness": o.get("witness")})
                     elif o["result"] != "unsat":
                         inconclusive.append(o["obligation"] + ": " + o["result"])
-            outs, n_paths = checks.static_timeout(bm)
-            info["timeout_thread_paths"] = n_paths
-            for o in outs:
-                add("timeout, " + o["obligation"], o["result"], **({"witness": o["witness"]} if "witness" in o else {}))
-                if o["result"] == "sat":
-                    violations.append({"property": "C12", "obligation": o["obligation"], "static": True, "witness": o.get("witness")})
-                elif o["result"] != "unsat":
-                    inconclusive.append(o["obligation"] + ": " + o["result"])
-            for o in checks.static_stop_propagation(bm):
-                add("once closed every worker's next broker call observes it, " + o["obligation"], o["result"])
-                if o["result"] == "sat":
-                    violations.append({"property": "C12", "obligation": o["obligation"], "static": True, "witness": o.get("witness")})
-                elif o["result"] != "unsat":
-                    inconclusive.append(o["obligation"] + ": " + o["result"])
-            if not bm.spawns_timeout_thread():
-                inconclusive.append("JobBroker::new does not spawn the timeout closure any more")
-        elif pid == "C06":
-            res, sinfo = steploop.obligations(mir_text, open(os.path.join(d, "sr", "src", "actor", "model_state.rs")).read())
-            info["actor_step"] = sinfo
-            for k, v in sinfo.items():
-                info["functions_encoded"].append(f"actor::model::ActorModel::{k} ({v['blocks']} basic blocks, {v['paths']} paths; MIR sha256 {hashlib.sha256((steploop.find(mir_text, k) or '').encode()).hexdigest()[:12]})")
-            seen_kinds = set()
-            for o in res:
-                add(o["obligation"], o["result"], **({"witness": o["witness"]} if o.get("witness") else {}))
-                kind = o["obligation"].split(": ", 2)[-1]
-                if o["result"] == "sat":
-                    if kind not in seen_kinds:
-                        seen_kinds.add(kind)
-                        violations.append({"property": pid, "obligation": o["obligation"], "static": True, "witness": o.get("witness")})
-                elif o["result"] != "unsat":
-                    inconclusive.append(o["obligation"] + ": " + o["result"])
-        elif pid == "C13":
-            cbs = blockloop.find_check_blocks(mir_text)
-            if "bfs" not in cbs:
-                raise Unsupported("bfs.rs check_block not found in the MIR")
-            res, binfo = blockloop.obligations("bfs", cbs["bfs"], fifo=True, witness=True, helpers=blockloop.find_helpers(mir_text, "bfs"))
-            binfo["mir_sha256"] = hashlib.sha256(cbs["bfs"].encode()).hexdigest()[:12]
-            info["check_block"] = {"bfs": binfo}
-            info["functions_encoded"].append(f"checker::bfs::check_block (MIR sha256 {binfo['mir_sha256']}, {binfo['blocks']} basic blocks, {binfo['round_paths']} paths per job, inner loops {binfo['inner_loops_havocked']} abstracted by havoc)")
-            seen_kinds = set()
-            sres, sinfo = spawnflow.obligations("bfs", mir_text, open(os.path.join(d, "sr", "src", "checker.rs")).read())
-            info["spawn"] = {"bfs": sinfo}
-            info["functions_encoded"].append(f"checker::bfs spawn() ({sinfo['blocks']} basic blocks, loops {sinfo['loops_havocked']} havocked, {sinfo['paths']} paths)")
-            sres = [o for o in sres if "one batch" in o["obligation"] or "thread_count" in o["obligation"]]
-            allres = res + initial_depth("bfs", mir_text) + sres + checks.single_thread_broker(bm) + [checks.bfs_order_induction()]
-            for o in allres:
-                if "target_max_depth" in o["obligation"] and "skipped only" in o["obligation"]:
-                    pass  # D1 belongs to C12 but is harmless here: kept, it is part of what makes depth labels meaningful
-                add(o["obligation"], o["result"], **({"witness": o["witness"]} if o.get("witness") else {}))
-                kind = o["obligation"].split(": ", 2)[-1]
-                if o["result"] == "sat":
-                    if kind not in seen_kinds:
-                        seen_kinds.add(kind)
-                        violations.append({"property": pid, "obligation": o["obligation"], "static": True, "witness": o.get("witness")})
-                elif o["result"] != "unsat":
-                    inconclusive.append(o["obligation"] + ": " + o["result"])
-        info["z3_feasibility_queries"] = bm.ex.queries
+            elif pid == "C13":
+                cbs = blockloop.find_check_blocks(mir_text)
+                if "bfs" not in cbs:
+                    raise Unsupported("bfs.rs check_block not found in the MIR")
+                res, binfo = blockloop.obligations("bfs", cbs["bfs"], fifo=True, witness=True, helpers=blockloop.find_helpers(mir_text, "bfs"))
+                binfo["mir_sha256"] = hashlib.sha256(cbs["bfs"].encode()).hexdigest()[:12]
+                info["check_block"] = {"bfs": binfo}
+                info["functions_encoded"].append(f"checker::bfs::check_block (MIR sha256 {binfo['mir_sha256']}, {binfo['blocks']} basic blocks, {binfo['round_paths']} paths per job, inner loops {binfo['inner_loops_havocked']} abstracted by havoc)")
+                seen_kinds = set()
+                sres, sinfo = spawnflow.obligations("bfs", mir_text, open(os.path.join(d, "sr", "src", "checker.rs")).read())
+                info["spawn"] = {"bfs": sinfo}
+                info["functions_encoded"].append(f"checker::bfs spawn() ({sinfo['blocks']} basic blocks, loops {sinfo['loops_havocked']} havocked, {sinfo['paths']} paths)")
+                sres = [o for o in sres if "one batch" in o["obligation"] or "thread_count" in o["obligation"]]
+                allres = res + initial_depth("bfs", mir_text) + sres + checks.single_thread_broker(bm) + [checks.bfs_order_induction()]
+                for o in allres:
+                    if "target_max_depth" in o["obligation"] and "skipped only" in o["obligation"]:
+                        pass  # D1 belongs to C12 but is harmless here: kept, it is part of what makes depth labels meaningful
+                    add(o["obligation"], o["result"], **({"witness": o["witness"]} if o.get("witness") else {}))
+                    kind = o["obligation"].split(": ", 2)[-1]
+                    if o["result"] == "sat":
+                        if kind not in seen_kinds:
+                            seen_kinds.add(kind)
+                            violations.append({"property": pid, "obligation": o["obligation"], "static": True, "witness": o.get("witness")})
+                    elif o["result"] != "unsat":
+                        inconclusive.append(o["obligation"] + ": " + o["result"])
+            info["z3_feasibility_queries"] = bm.ex.queries
     except Unsupported as e:
         inconclusive.append("encoder: " + str(e))
     except Exception as e:  # noqa: BLE001
@@ -1137,6 +1178,8 @@ def _integration_test(d, v, code, fname, marker):
 
 def replay_static(d, pid, v):
     """Static obligations with a native demonstration."""
+    if pid in DISC_PIDS:
+        return _integration_test(d, v, open(os.path.join(os.path.dirname(os.path.abspath(__file__)), "oracle_test.rs")).read(), "verif_checker_oracle", "VIOLATION checker-oracle")
     if pid == "C12" and "not closed by the timeout thread before the closing time" in v["obligation"]:
         return _native_test(d, STATIC_TEST_EARLY, "verif_timeout_not_before_deadline", "VIOLATION market closed")
     if pid == "C12" and ("market closed once the closing time has passed" in v["obligation"] or "never goes back to sleep once the closing time has passed" in v["obligation"]):
